@@ -172,11 +172,23 @@ def runOp (op : String) (dbg : Bool) (a : List String) : Option (Out × Out) := 
     let t ← parseTy t; let src ← parseVec src
     let sp : Out := if overCap t src.len then .err "NotEnoughCapacity" else .ok [.sv src.abs]
     pure (resV (convert t src), sp)
+  | "convertv", [t, src] =>  -- the by-value `From`/`TryFrom` bodies: same meaning (a kept allocation is visible only as capacity)
+    let t ← parseTy t; let src ← parseVec src
+    let sp : Out := if overCap t src.len then .err "NotEnoughCapacity" else .ok [.sv src.abs]
+    pure (resV (convert t src), sp)
   -- element access / edits ---------------------------------------------------------------------------------
   | "bitconv", [x] =>      -- Bit::from(x), uN::from(bit), bool::from(bit), Bit::from(bool)
     let (_, x) ← parseUInt x
     let b := x != 0
-    let r : Out := .ok [.bool b, .nat (if b then 1 else 0), .bool b, .bool b]
+    let r : Out := .ok [.bool b, .nat (if b then 1 else 0), .bool b, .bool b, .chars (if b then ['1'] else ['0'])]
+    pure (r, r)
+  | "errdisplay", [k, n] =>  -- Display / Debug of ConvertionError (no property; completes the coverage of lib.rs)
+    let n ← n.toNat?
+    let r : Out := if k == "cap" then
+        .ok [.chars "The bit vector did not have enough capacity to perform the convertion".toList, .chars "NotEnoughCapacity".toList]
+      else
+        .ok [.chars ("The bit vector convertion method encountered an error at index " ++ toString n).toList,
+             .chars ("InvalidFormat(" ++ toString n ++ ")").toList]
     pure (r, r)
   | "get", [v, i] =>
     let v ← parseVec v; let i ← i.toNat?
